@@ -5,7 +5,8 @@
    std (1.95) `read_until(b'\n', buf)`:  loop { fill_buf: Err(Interrupted) => retry,
    Err(e) => return Err(e) (the bytes appended so far stay appended and consumed);
    append up to and including the first line feed, consume; stop at the line feed or when
-   fill_buf returns nothing }.
+   fill_buf returns nothing }.  An EMPTY slice from fill_buf is the end of input for read_until whether or
+   not the BufRead delivers more later (event EEof: `Ok(n)` with a line without line feed, or `Ok(0)`).
    `read_line(&mut String)` = append_to_string(read_until): the appended bytes are validated;
    valid => they stay in the String (ALSO WHEN read_until FAILED: a partial line is kept)
    and the result of read_until is returned; invalid => the String is cut back to its old
@@ -14,7 +15,9 @@
 
    reader.rs: `new` stores the error and leaves the loop; `next` returns the error at once,
    WITHOUT updating `last` -- after a fault in the middle of a line the buffer holds a partial
-   line that `last` does not account for.
+   line that `last` does not account for.  With `last += n` (before /repo 23feb61, [fixed] = false)
+   the offset stayed wrong for ever (finding F-T1); with `last = buffer.len()` (since, [fixed] = true)
+   the next complete line puts it right.
    No proofs in this file (FaultProofs.v). *)
 From Coq Require Import List Bool Arith.
 From Coq Require Import Init.Byte.
@@ -25,7 +28,9 @@ Import ListNotations.
 Inductive ev :=
 | EData (c : str)   (* fill_buf makes these bytes available (the unconsumed part, for the head) *)
 | EFail             (* fill_buf returns an error (kind Other) once *)
-| EIntr.            (* fill_buf returns ErrorKind::Interrupted once *)
+| EIntr             (* fill_buf returns ErrorKind::Interrupted once *)
+| EEof.             (* fill_buf returns an EMPTY slice once although more data follows (wave 3, review C14-7):
+                       a transient end of input -- read_until returns what it has appended so far *)
 
 Definition estream := list ev.
 
@@ -43,6 +48,7 @@ Fixpoint read_until_e (s : estream) (acc : str) : bool * str * estream :=
       end
   | EIntr :: rest => read_until_e rest acc
   | EFail :: rest => (true, acc, rest)
+  | EEof :: rest => (false, acc, rest)
   end.
 
 (* both kinds of failure are an io::Error for the caller *)
@@ -73,8 +79,10 @@ Inductive step := SOut (o : outcome) | SPanic | SHang.
 
 Section ReaderE.
   Variable parse : parser record.
-  (* [fixed] = false: reader.rs as it is (`last += n`);
-     [fixed] = true: the proposed repair (`last = buffer.len()`, see notes/transfac.md F-T1) *)
+  (* [fixed] = false: reader.rs as it was before /repo 23feb61 (`last += n`; finding F-T1);
+     [fixed] = true: reader.rs since 23feb61 (`last = buffer.len()`), which is also what the no-fault
+     model TransfacReader.new_loop / next_loop says.  translate/transfac_reader.py re-reads which one the
+     source has (GenReader.reader_last_is_buffer_len; C15.reader_model_last_is_source_last). *)
   Variable fixed : bool.
 
   Definition advance (buf' : str) (last n : nat) : nat :=
